@@ -76,11 +76,13 @@ def generate(rng, tier, i):
             s = math.sqrt(area)
             s = float(f"{s:.5g}")
             cx, cy = round(rng.uniform(s, W + s), 3), round(rng.uniform(s, H + s), 3)
+            # abutting rectangles are derived from already-rounded values (rounding each number separately would open
+            # gaps / overlaps of 1e-8 relative, which at coordinates of 1e4 exceeds the reader's area tolerance)
+            h1, h2 = float(f"{s * 0.6:.5g}"), float(f"{s * 0.2:.5g}")
             if rng.random() < 0.5:
-                rects = [[cx, cy, s, s * 0.8]]
+                rects = [[cx, cy, s, float(f"{s * 0.8:.5g}")]]
             else:
-                rects = [[cx, cy, s, s * 0.6], [cx, cy + s * 0.3 + s * 0.1, s * 0.5, s * 0.2]]
-            rects = [[float(f"{v:.8g}") for v in r_] for r_ in rects]
+                rects = [[cx, cy, s, h1], [cx, cy + h1 / 2 + h2 / 2, float(f"{s * 0.5:.5g}"), h2]]
             mods[f"H{k}"] = {"hard": True, "rectangles": rects}
     for k in range(nfix):
         w, h = rng.uniform(0.05, 0.2) * W, rng.uniform(0.05, 0.2) * H
